@@ -265,6 +265,15 @@ def specific_consumers(obj):
                 ("psbt.assert_signed", lambda: P.assert_signed(obj, allow_partial=True))]
         for i in range(min(len(obj.inputs), 2)):
             out.append((f"psbt.ecdsa_sig_hash[{i}]", (lambda i=i: P.ecdsa_sig_hash(obj, i))))
+        from btclib.psbt import silent_payments as SP
+        out += [("sp.assert_eligibility_as_valid", lambda: SP.assert_eligibility_as_valid(obj)),
+                ("sp.eligible_pub_keys", lambda: SP.eligible_pub_keys(obj)),
+                ("sp.assert_shares_as_valid", lambda: SP.assert_shares_as_valid(obj)),
+                ("sp.assert_output_scripts_as_valid", lambda: SP.assert_output_scripts_as_valid(obj)),
+                ("sp.assert_as_valid", lambda: SP.assert_as_valid(obj)),
+                ("sp.output_scripts", lambda: SP.output_scripts(obj))]
+        for i in range(min(len(obj.inputs), 3)):
+            out.append((f"sp.input_pub_key[{i}]", (lambda i=i: SP.input_pub_key(obj.inputs[i]))))
     elif name == "Block":
         out.append(("len(transactions)", lambda: len(obj.transactions)))
     return out
